@@ -189,6 +189,9 @@ def brute_flow(phis, n, k, imag):
 def brute_differential(evs, n, k, imag):
     """evs: list of events, event = list of (phi, is_poi). Definition with the first particle restricted to POI."""
     phis = [[p for p, _ in e] for e in evs]
+    if not any(len(ph) >= max(k, 2) for ph in phis):
+        # no event holds a single k-tuple: the reference correlators of the whole sample are undefined
+        return ("undefined" if any(f for e in evs for _, f in e) else None), 0.0
     c2 = brute_corr(phis, n, 2)
     num2 = den2 = 0.0
     num4 = den4 = 0.0
@@ -252,15 +255,33 @@ def gen_diff_case(rng, k):
         for _ in range(rng.randint(1, 2)):
             phis.insert(rng.randint(0, len(phis)), [rng.uniform(-math.pi, math.pi) for _ in range(rng.randint(1, 3))])
     sel = rng.choice(SELECTORS)
-    poi = rng.choice([None, None, [211], [211, 321]])
+    # species lists: none, short, and long ones (tuple/ndarray/list, with repeats, codes spread over a wide range) next to
+    # events holding several particles of one species that is NOT requested
+    LONG = [211, -211, 321, -321, 2212, -2212, 3122, -3122, 3312, -3312, 3334, -3334, 11, -11, 13, -13, 1000010020, 411, -411, 431]
+    species = [211, 211, 321, 2212]
+    poi = rng.choice([None, None, [211], [211, 321], "long", "long"])
+    if poi == "long":
+        poi = rng.sample(LONG, rng.randint(12, 20))
+        if rng.random() < 0.3:
+            poi = poi + poi[:2]                      # repeats in the request
+        species = [211, 321, 2212, 111, 111, 22, 22, 2112, 2112, -211, 3122]   # 111, 22, 2112 are never requested
     parts = []
     for ev in phis:
         pe = []
         for p in ev:
             pt = rng.choice([0.25, 0.5, 0.75, 1.0, 1.5, rng.uniform(0.1, 2.0)])
             y = rng.choice([-0.5, 0.0, 0.5, rng.uniform(-1, 1)])
-            pe.append(mk_particle(pt, p, y, rng.choice([211, 211, 321, 2212])))
+            pe.append(mk_particle(pt, p, y, rng.choice(species)))
         parts.append(pe)
+    r = rng.random()
+    if r < 0.12 and parts:
+        # resampled sample: the same event object (hence the same Particle objects) occurs at several positions
+        parts = [parts[rng.randrange(len(parts))] for _ in range(len(parts) + rng.randint(1, 2))]
+    elif r < 0.2 and len(parts) >= 2:
+        # mixed events: a Particle object of one event also sits in another event
+        src, dst = rng.sample(range(len(parts)), 2)
+        if parts[src]:
+            parts[dst] = list(parts[dst]) + [rng.choice(parts[src])]
     if sel == "pT":
         bins = sorted(rng.sample([0.0, 0.5, 1.0, 1.5, 2.5], rng.randint(2, 4)))
     else:
